@@ -102,7 +102,8 @@ Section Generic.
   Definition ks_rel (ctx : cctx) (st : N * bytes) : Prop :=
     c_iv ctx = iv12 /\ c_lbc ctx = fst st /\ c_rks ctx = N.of_nat (length (snd st)) /\
     (length (snd st) < 64)%nat /\
-    (snd st <> [] -> snd st = skipn (64 - length (snd st)) (c_last_ks ctx)).
+    (snd st <> [] -> c_last_ks ctx = blk (fst st)) /\
+    (snd st <> [] -> snd st = skipn (64 - length (snd st)) (blk (fst st))).
 
   Lemma enc_dec_ks_frame : forall ctx src, same_poly ctx (fst (enc_dec_ks key ctx src)).
   Proof.
@@ -116,7 +117,9 @@ Section Generic.
     snd (enc_dec_ks key ctx src) = ref_out (fst st) (snd st) src /\
     ks_rel (fst (enc_dec_ks key ctx src)) (ref_st (fst st) (snd st) src).
   Proof.
-    intros ctx [c buf] src (Hiv & Hc & Hr & Hlt & Hb). cbn [fst snd] in *.
+    intros ctx [c buf] src (Hiv & Hc & Hr & Hlt & Hk & Hb'). cbn [fst snd] in *.
+    assert (Hb : buf <> [] -> buf = skipn (64 - length buf) (c_last_ks ctx))
+      by (intro Hn; rewrite (Hk Hn); auto).
     unfold ref_out, ref_st. rewrite <- (carry_step_ref 64 ltac:(lia) blk blk_len nxt).
     unfold ChachaStream.enc_dec_ks, carry_step.
     destruct src as [|x t].
@@ -134,10 +137,10 @@ Section Generic.
       unfold ks_rel. cbn [c_iv c_lbc c_rks c_last_ks set_rks fst snd].
       assert (Hn : (n <= length buf)%nat) by (subst n; lia).
       rewrite skipn_length.
+      assert (Hbn : skipn n buf <> [] -> buf <> []) by (intros Hne E; rewrite E, skipn_nil in Hne; congruence).
       repeat split; try assumption; try lia.
-      intros Hne.
-      assert (buf <> []) by (intro E; rewrite E, skipn_nil in Hne; congruence).
-      rewrite (Hb H) at 1. rewrite skipn_skipn_add. f_equal. lia.
+      + intros Hne. apply Hk. auto.
+      + intros Hne. rewrite (Hb' (Hbn Hne)) at 1. rewrite skipn_skipn_add. f_equal. lia.
     - set (cs := chunks 64 (y :: r)).
       destruct (chunks_last 64 ltac:(lia) (y :: r) ltac:(discriminate)) as [Hlne Hlle].
       fold cs in Hlne, Hlle.
@@ -151,9 +154,10 @@ Section Generic.
         cbn [c_iv c_lbc c_rks c_last_ks set_rks set_lbc set_last_ks fst snd];
         rewrite skipn_length, blk_len.
       + repeat split; try assumption; try lia.
-        intros _. fold (blk (c + N.of_nat (length cs))). f_equal. lia.
-      + repeat split; try assumption; try lia.
-        intros Hne. exfalso. apply Hne. apply skipn_all2. rewrite blk_len. lia.
+        all: intros _; try reflexivity; try (f_equal; lia).
+      + assert (Hnil : skipn (length (last cs [])) (blk (c + N.of_nat (length cs))) = [])
+          by (apply skipn_all2; rewrite blk_len; lia).
+        repeat split; try assumption; try lia; intros Hne; exfalso; apply Hne; exact Hnil.
   Qed.
 
   (* ---------- the Poly1305 side ---------- *)
@@ -387,7 +391,7 @@ Section Generic.
   (* ---------- transport along frames ---------- *)
   Lemma ks_rel_same : forall a b st, same_ks a b -> ks_rel a st -> ks_rel b st.
   Proof.
-    intros a b st (E1 & E2 & E3 & E4) (H1 & H2 & H3 & H4 & H5).
+    intros a b st (E1 & E2 & E3 & E4) (H1 & H2 & H3 & H4 & H5 & H6).
     unfold ks_rel. rewrite E1, E2, E3, E4. repeat split; assumption.
   Qed.
 
@@ -504,9 +508,8 @@ Section Generic.
     rewrite st_after_nil.
     cbn [c_iv c_lbc c_rks c_last_ks c_poly_key c_scratch c_rct c_hash c_hash_len c_aad_len
          set_hash set_aad_len set_hash_len set_lbc set_rks set_rct set_iv set_poly_key fst snd length].
-    repeat split; try reflexivity; try lia; try assumption.
-    - intro H. congruence.
-    - exists [], []. destruct dir; cbn; repeat split; try lia; apply mult16_0.
+    repeat split; try reflexivity; try lia; try assumption; try (intro H; congruence).
+    exists [], []. destruct dir; cbn; repeat split; try lia; apply mult16_0.
   Qed.
 
   (* ---------- a list of updates ---------- *)
@@ -616,64 +619,287 @@ Section Generic.
                       set_hash set_aad_len set_hash_len set_last_ks set_poly_key set_scratch set_lbc
                       set_rks set_rct set_iv fst snd] in H.
 
+  (* what init_chacha20_poly1305 does once the context has been set up ([ctxA]) *)
+  Definition job_init_tail (ctxA : cctx) (src : bytes) (dir : cdir) : cctx * bytes :=
+    let hash_len := N.land (len64 src) HASH_LEN_CLAMP in
+    let remain_ct_bytes := N.land (len64 src) HASH_REMAIN_CLAMP in
+    match dir with
+    | Enc =>
+        let '(ctx, dst) := enc_dec_ks key ctxA src in
+        let ctx := paead_update_ctx ctx (firstn (N.to_nat hash_len) dst) in
+        let remain_ct_ptr := skipn (N.to_nat hash_len) dst in
+        (set_scratch ctx (write_at (c_scratch ctx) 0 (firstn (N.to_nat remain_ct_bytes) remain_ct_ptr)), dst)
+    | Dec =>
+        let ctx := paead_update_ctx ctxA (firstn (N.to_nat hash_len) src) in
+        let remain_ct_ptr := skipn (N.to_nat hash_len) src in
+        let ctx := set_scratch ctx (write_at (c_scratch ctx) 0 (firstn (N.to_nat remain_ct_bytes) remain_ct_ptr)) in
+        enc_dec_ks key ctx src
+    end.
+
+  Lemma job_init_tail_enc : forall ctxA s,
+    ks_rel ctxA (st_after []) ->
+    c_poly_key ctxA = pk -> length (c_scratch ctxA) = 16%nat -> c_hash ctxA = h0 ->
+    c_hash_len ctxA = len64 s -> c_aad_len ctxA = len64 aad ->
+    c_rct ctxA = N.land (len64 s) HASH_REMAIN_CLAMP ->
+    N.of_nat (length s) < 2 ^ 64 ->
+    inv Enc (fst (job_init_tail ctxA s Enc)) s /\ snd (job_init_tail ctxA s Enc) = out_of [] s.
+  Proof.
+    intros ctxA s HksA A1 A2 A3 A4 A5 A6 Hlen. unfold job_init_tail.
+    pose proof (enc_dec_ks_sim ctxA (st_after []) s HksA) as [Ho Hks2].
+    pose proof (enc_dec_ks_frame ctxA s) as Hfr.
+    destruct (enc_dec_ks key ctxA s) as [ctxB dst]. cbn [fst snd] in *.
+    fold (out_of [] s) in Ho. subst dst.
+    destruct Hfr as (F1 & F2 & F3 & F4 & F5 & F6).
+    assert (Hl : len64 (out_of [] s) = len64 s) by (unfold len64; rewrite out_of_length; reflexivity).
+    assert (B1 : c_poly_key (set_rct ctxB 0) = pk) by (psimpl; congruence).
+    assert (B2 : length (c_scratch (set_rct ctxB 0)) = 16%nat) by (psimpl; congruence).
+    assert (B3 : c_hash (set_rct ctxB 0) = paead_update pk h0 []) by (psimpl; rewrite F1, A3; reflexivity).
+    assert (B4 : N.of_nat (length (out_of [] s)) < 2 ^ 64) by (rewrite out_of_length; assumption).
+    pose proof (absorb_aligned (set_rct ctxB 0) (out_of [] s) [] B1 B2 eq_refl mult16_0 B3 B4) as Hpc.
+    cbv zeta in Hpc. rewrite Hl in Hpc. cbn [app] in Hpc.
+    split; [|reflexivity].
+    split; [| split; [| split]].
+    + apply (ks_rel_same ctxB); [psimpl; repeat split|]. change (st_after s) with (st_after ([] ++ s)). rewrite st_after_app. exact Hks2.
+    + cbn [ct_of].
+      assert (E0 : ref_out 0 [] s = out_of [] s) by reflexivity. rewrite E0.
+      eapply poly_core_same; [|exact Hpc].
+      unfold same_poly, ChachaStream.paead_update_ctx. psimpl. rewrite F3, A6. repeat split.
+    + psimpl. unfold ChachaStream.paead_update_ctx. psimpl. rewrite F6. exact A4.
+    + psimpl. unfold ChachaStream.paead_update_ctx. psimpl. rewrite F5. exact A5.
+  Qed.
+
+  Lemma job_init_tail_dec : forall ctxA s,
+    ks_rel ctxA (st_after []) ->
+    c_poly_key ctxA = pk -> length (c_scratch ctxA) = 16%nat -> c_hash ctxA = h0 ->
+    c_hash_len ctxA = len64 s -> c_aad_len ctxA = len64 aad ->
+    c_rct ctxA = N.land (len64 s) HASH_REMAIN_CLAMP ->
+    N.of_nat (length s) < 2 ^ 64 ->
+    inv Dec (fst (job_init_tail ctxA s Dec)) s /\ snd (job_init_tail ctxA s Dec) = out_of [] s.
+  Proof.
+    intros ctxA s HksA A1 A2 A3 A4 A5 A6 Hlen. unfold job_init_tail.
+    assert (B1 : c_poly_key (set_rct ctxA 0) = pk) by (psimpl; congruence).
+    assert (B2 : length (c_scratch (set_rct ctxA 0)) = 16%nat) by (psimpl; congruence).
+    assert (B3 : c_hash (set_rct ctxA 0) = paead_update pk h0 []) by (psimpl; rewrite A3; reflexivity).
+    pose proof (absorb_aligned (set_rct ctxA 0) s [] B1 B2 eq_refl mult16_0 B3 Hlen) as Hpc.
+    cbv zeta in Hpc. cbn [app] in Hpc.
+    match goal with |- context [enc_dec_ks key ?c s] => remember c as ctxH eqn:EH end.
+    assert (HH : same_ks ctxA ctxH /\ poly_core ctxH s /\ c_hash_len ctxH = len64 s /\ c_aad_len ctxH = len64 aad).
+    { split; [|split; [|split]].
+      - rewrite EH. unfold same_ks, ChachaStream.paead_update_ctx. psimpl. repeat split.
+      - eapply poly_core_same; [|exact Hpc].
+        rewrite EH. unfold same_poly, ChachaStream.paead_update_ctx. psimpl. rewrite A6. repeat split.
+      - rewrite EH. unfold ChachaStream.paead_update_ctx. psimpl. exact A4.
+      - rewrite EH. unfold ChachaStream.paead_update_ctx. psimpl. exact A5. }
+    clear EH Hpc. destruct HH as (H1 & H2 & H3 & H4).
+    pose proof (enc_dec_ks_sim ctxH (st_after []) s (ks_rel_same ctxA ctxH _ H1 HksA)) as [Ho Hks2].
+    pose proof (enc_dec_ks_frame ctxH s) as Hfr.
+    destruct (enc_dec_ks key ctxH s) as [ctxB dst]. cbn [fst snd] in *.
+    split; [|exact Ho].
+    destruct Hfr as (F1 & F2 & F3 & F4 & F5 & F6).
+    split; [| split; [| split]].
+    + change (st_after s) with (st_after ([] ++ s)). rewrite st_after_app. exact Hks2.
+    + cbn [ct_of]. apply (poly_core_same ctxH); [repeat split; assumption|assumption].
+    + rewrite F6. exact H3.
+    + rewrite F5. exact H4.
+  Qed.
+
   Lemma job_init_inv : forall dir ctx0 s,
     length (c_scratch ctx0) = 16%nat -> N.of_nat (length s) < 2 ^ 64 ->
     inv dir (fst (job_init key ctx0 iv aad s dir)) s /\
     snd (job_init key ctx0 iv aad s dir) = out_of [] s.
   Proof.
-    intros dir ctx0 s Hs Hlen. unfold ChachaStream.job_init.
-    set (rem := N.land (len64 s) HASH_REMAIN_CLAMP).
-    set (l16 := N.land (len64 s) HASH_LEN_CLAMP).
-    set (ctxA := ChachaStream.paead_update_ctx pblock _ aad).
-    assert (HksA : ks_rel ctxA (st_after [])).
-    { rewrite st_after_nil. unfold ctxA, ks_rel, ChachaStream.paead_update_ctx. psimpl.
-      cbn [length]. repeat split; try lia. congruence. }
-    assert (HA : c_poly_key ctxA = pk /\ length (c_scratch ctxA) = 16%nat /\ c_hash ctxA = h0 /\
-                 c_hash_len ctxA = len64 s /\ c_aad_len ctxA = len64 aad /\ c_rct ctxA = rem).
-    { unfold ctxA, ChachaStream.paead_update_ctx. psimpl. repeat split; auto. }
-    clearbody ctxA.
-    destruct HA as (A1 & A2 & A3 & A4 & A5 & A6).
+    intros dir ctx0 s Hs Hlen.
+    change (job_init key ctx0 iv aad s dir) with
+      (job_init_tail (ChachaStream.paead_update_ctx pblock
+         (set_poly_key (set_iv (set_rct (set_rks (set_lbc (set_hash_len (set_aad_len (set_hash ctx0 0)
+            (len64 aad)) (len64 s)) 0) 0) (N.land (len64 s) HASH_REMAIN_CLAMP)) (firstn 12 iv)) (pkey_gen key iv)) aad) s dir).
+    destruct dir; [apply job_init_tail_enc | apply job_init_tail_dec];
+      unfold ChachaStream.paead_update_ctx; psimpl; try assumption; try reflexivity;
+      rewrite st_after_nil; unfold ks_rel; psimpl; cbn [length]; repeat split; try lia; try congruence.
+  Qed.
+
+  (* ---------- job API: IMB_SGL_COMPLETE carries the last segment ---------- *)
+  Lemma complete_hash_part_frame : forall ctx ct len btc,
+    same_ks ctx (complete_hash_part ctx ct len btc) /\
+    c_poly_key (complete_hash_part ctx ct len btc) = c_poly_key ctx /\
+    c_aad_len (complete_hash_part ctx ct len btc) = c_aad_len ctx /\
+    c_hash_len (complete_hash_part ctx ct len btc) = c_hash_len ctx.
+  Proof.
+    intros. unfold ChachaStream.complete_hash_part, same_ks, ChachaStream.paead_update_ctx.
+    psimpl. destruct (0 <? _); destruct (_ =? 0); psimpl; repeat split.
+  Qed.
+
+  Lemma complete_hash_part_hash : forall ctx ct D,
+    poly_core ctx ct -> N.of_nat (length D) < 2 ^ 64 ->
+    c_hash (complete_hash_part ctx D (len64 D) (btc_of (c_rct ctx) (len64 D))) =
+    paead_update pk h0 (ct ++ D).
+  Proof.
+    intros ctx ct D (Hpk & Hs & cw & cr & Hct & Hcw & Hcr & Hrct & Hscr & Hh) HD.
+    assert (Hr16 : c_rct ctx < 16) by (rewrite Hrct; unfold len64; lia).
+    rewrite btc_of_spec by assumption.
+    unfold ChachaStream.complete_hash_part, ChachaStream.paead_update_ctx. psimpl.
+    destruct (N.eqb_spec (c_rct ctx) 0) as [Hz|Hnz].
+    - assert (cr = []) by (destruct cr; [reflexivity| rewrite Hz in Hrct; unfold len64 in Hrct; simpl in Hrct; lia]).
+      subst cr. rewrite app_nil_r in Hct. subst ct.
+      rewrite Hz. cbn [N.add N.ltb N.compare]. psimpl. rewrite N.sub_0_r. cbn [N.to_nat skipn].
+      destruct (N.eqb_spec (len64 D) 0) as [Hl0|Hl0]; psimpl.
+      + assert (D = []) by (destruct D; [reflexivity|unfold len64 in Hl0; simpl in Hl0; lia]). subst D.
+        rewrite app_nil_r. exact Hh.
+      + unfold len64. rewrite Nat2N.id, firstn_all. rewrite Hh, Hpk. apply pupd_app. assumption.
+    - set (btc := N.min (len64 D) (16 - c_rct ctx)).
+      assert (Hbtc : N.to_nat btc = Nat.min (length D) (16 - length cr)).
+      { subst btc. rewrite Hrct. unfold len64. lia. }
+      set (scr1 := write_at (c_scratch ctx) (N.to_nat (c_rct ctx)) (firstn (N.to_nat btc) D)).
+      assert (Hrn : N.to_nat (c_rct ctx) = length cr) by (rewrite Hrct; unfold len64; lia).
+      assert (Hfl : length (firstn (N.to_nat btc) D) = N.to_nat btc).
+      { rewrite firstn_length, Hbtc. lia. }
+      assert (Hp1 : firstn (N.to_nat (c_rct ctx + btc)) scr1 = cr ++ firstn (N.to_nat btc) D).
+      { replace (N.to_nat (c_rct ctx + btc)) with (length cr + N.to_nat btc)%nat by lia.
+        subst scr1. rewrite Hrn. rewrite <- Hfl at 1. rewrite write_at_prefix by lia.
+        rewrite Hscr. reflexivity. }
+      replace (0 <? c_rct ctx + btc) with true by (symmetry; apply N.ltb_lt; lia).
+      psimpl. rewrite Hp1, Hpk, Hh. rewrite pupd_app by assumption.
+      destruct (N.eqb_spec (len64 D - btc) 0) as [Hl0|Hl0]; psimpl.
+      + assert (Hall : N.to_nat btc = length D) by (unfold len64 in Hl0; lia).
+        rewrite Hall, firstn_all, Hct, app_assoc. reflexivity.
+      + assert (Hb16 : (length cr + N.to_nat btc = 16)%nat) by (unfold len64 in Hl0; lia).
+        replace (N.to_nat (len64 D - btc)) with (length (skipn (N.to_nat btc) D))
+          by (rewrite skipn_length; unfold len64; lia).
+        rewrite firstn_all. rewrite pupd_app.
+        * rewrite Hct, <- !app_assoc, firstn_skipn. reflexivity.
+        * rewrite !app_length, Hfl. apply mult16_add; [assumption|]. exists 1%nat. lia.
+  Qed.
+
+  Lemma job_complete_btc : forall ctx src dir,
+    job_complete key ctx src dir =
+    let btc := btc_of (c_rct ctx) (len64 src) in
+    let ctx := set_hash_len ctx (c_hash_len ctx + len64 src) in
+    let '(ctx, dst) :=
+      match dir with
+      | Enc => let '(ctx, dst) := enc_dec_ks key ctx src in
+               (complete_hash_part ctx dst (len64 src) btc, dst)
+      | Dec => enc_dec_ks key (complete_hash_part ctx src (len64 src) btc) src
+      end in
+    let '(ctx, tag) := finish_tag ctx in (ctx, dst, tag).
+  Proof. reflexivity. Qed.
+
+  Lemma job_complete_spec : forall dir ctx P s,
+    inv dir ctx P -> N.of_nat (length s) < 2 ^ 64 ->
+    let '(ctx', o, t) := job_complete key ctx s dir in
+    o = out_of P s /\ t = tag_of (ct_of dir (P ++ s)) /\ sgl_ctx_clean ctx'.
+  Proof.
+    intros dir ctx P s (Hks & Hpc & Hhl & Hal) Hs.
+    rewrite job_complete_btc. cbv zeta.
+    set (ctx1 := set_hash_len ctx (c_hash_len ctx + len64 s)).
+    assert (Hks1 : ks_rel ctx1 (st_after P)) by (apply (ks_rel_same ctx); [unfold same_ks; psimpl; repeat split|assumption]).
+    assert (Hpc1 : poly_core ctx1 (ct_of dir P))
+      by (destruct Hpc as (A & B & C); split; [exact A|split; [exact B|exact C]]).
+    assert (Hr1 : c_rct ctx1 = c_rct ctx) by reflexivity.
+    assert (Hlen1 : c_hash_len ctx1 = len64 (ct_of dir (P ++ s))).
+    { subst ctx1. psimpl. rewrite Hhl. unfold len64. rewrite ct_of_length, app_length. lia. }
+    assert (Hal1 : c_aad_len ctx1 = len64 aad) by exact Hal.
+    assert (Hpk1 : c_poly_key ctx1 = pk) by (destruct Hpc1 as (A & _); exact A).
+    clearbody ctx1. clear Hks Hpc Hhl Hal.
+    assert (G : forall ctxF dst, dst = out_of P s -> c_poly_key ctxF = pk ->
+                  c_hash ctxF = paead_update pk h0 (ct_of dir (P ++ s)) ->
+                  c_aad_len ctxF = len64 aad -> c_hash_len ctxF = len64 (ct_of dir (P ++ s)) ->
+                  let '(ctx', tag) := finish_tag ctxF in
+                  dst = out_of P s /\ tag = tag_of (ct_of dir (P ++ s)) /\ sgl_ctx_clean ctx').
+    { intros ctxF dst Hd G1 G2 G3 G4.
+      destruct (finish_tag_spec ctxF _ G1 G2 G3 G4) as [T1 T2].
+      destruct (finish_tag ctxF) as [c' tg]. cbn [fst snd] in *. auto. }
     destruct dir.
-    - pose proof (enc_dec_ks_sim ctxA (st_after []) s HksA) as [Ho Hks2].
-      pose proof (enc_dec_ks_frame ctxA s) as Hfr.
-      destruct (enc_dec_ks key ctxA s) as [ctxB dst]. cbn [fst snd] in *.
-      fold (out_of [] s) in Ho. subst dst.
+    - pose proof (enc_dec_ks_sim ctx1 (st_after P) s Hks1) as [Ho Hks2].
+      pose proof (enc_dec_ks_frame ctx1 s) as Hfr.
+      destruct (enc_dec_ks key ctx1 s) as [ctx2 dst]. cbn [fst snd] in *.
+      fold (out_of P s) in Ho.
       destruct Hfr as (F1 & F2 & F3 & F4 & F5 & F6).
-      assert (Hl : len64 (out_of [] s) = len64 s) by (unfold len64; rewrite out_of_length; reflexivity).
-      assert (B1 : c_poly_key (set_rct ctxB 0) = pk) by (psimpl; congruence).
-      assert (B2 : length (c_scratch (set_rct ctxB 0)) = 16%nat) by (psimpl; congruence).
-      assert (B3 : c_hash (set_rct ctxB 0) = paead_update pk h0 []) by (psimpl; rewrite F1, A3; reflexivity).
-      assert (B4 : N.of_nat (length (out_of [] s)) < 2 ^ 64) by (rewrite out_of_length; assumption).
-      pose proof (absorb_aligned (set_rct ctxB 0) (out_of [] s) [] B1 B2 eq_refl mult16_0 B3 B4) as Hpc.
-      cbv zeta in Hpc. rewrite Hl in Hpc. fold rem l16 in Hpc. cbn [app] in Hpc.
-      split; [|reflexivity].
-      split; [| split; [| split]].
-      + apply (ks_rel_same ctxB); [psimpl; repeat split|]. rewrite <- (app_nil_l s). rewrite st_after_app. exact Hks2.
-      + cbn [ct_of]. rewrite <- (app_nil_l s), ref_out_app. cbn [app].
-        assert (E0 : ref_out 0 [] [] = []) by reflexivity. rewrite E0. cbn [app].
-        eapply poly_core_same; [|exact Hpc].
-        unfold same_poly, ChachaStream.paead_update_ctx. psimpl. rewrite F3, A6. repeat split.
-      + psimpl. unfold ChachaStream.paead_update_ctx. psimpl. rewrite F6. exact A4.
-      + psimpl. unfold ChachaStream.paead_update_ctx. psimpl. rewrite F5. exact A5.
-    - set (ctxH := set_scratch _ _).
-      assert (HksH : ks_rel ctxH (st_after [])).
-      { apply (ks_rel_same ctxA); [|assumption]. subst ctxH. unfold same_ks, ChachaStream.paead_update_ctx. psimpl. repeat split. }
-      pose proof (enc_dec_ks_sim ctxH (st_after []) s HksH) as [Ho Hks2].
-      pose proof (enc_dec_ks_frame ctxH s) as Hfr.
-      assert (B1 : c_poly_key (set_rct ctxA 0) = pk) by (psimpl; congruence).
-      assert (B2 : length (c_scratch (set_rct ctxA 0)) = 16%nat) by (psimpl; congruence).
-      assert (B3 : c_hash (set_rct ctxA 0) = paead_update pk h0 []) by (psimpl; rewrite A3; reflexivity).
-      pose proof (absorb_aligned (set_rct ctxA 0) s [] B1 B2 eq_refl mult16_0 B3 Hlen) as Hpc.
-      cbv zeta in Hpc. fold rem l16 in Hpc. cbn [app] in Hpc.
-      destruct (enc_dec_ks key ctxH s) as [ctxB dst]. cbn [fst snd] in *.
-      split; [|exact Ho].
+      assert (Hl : len64 dst = len64 s) by (subst dst; unfold len64; rewrite out_of_length; reflexivity).
+      pose proof (complete_hash_part_frame ctx2 dst (len64 s) (btc_of (c_rct ctx) (len64 s))) as (Fk & G1 & G2 & G3).
+      pose proof (complete_hash_part_hash ctx2 (ct_of Enc P) dst
+                    (poly_core_same ctx1 ctx2 _ (conj F1 (conj F2 (conj F3 (conj F4 (conj F5 F6))))) Hpc1)
+                    ltac:(subst dst; rewrite out_of_length; assumption)) as Hh.
+      rewrite Hl, F3, Hr1 in Hh.
+      apply G; try assumption; try congruence.
+      rewrite Hh, ct_of_app. subst dst. reflexivity.
+    - pose proof (complete_hash_part_frame ctx1 s (len64 s) (btc_of (c_rct ctx) (len64 s))) as (Fk & G1 & G2 & G3).
+      pose proof (complete_hash_part_hash ctx1 (ct_of Dec P) s Hpc1 Hs) as Hh.
+      rewrite Hr1 in Hh.
+      set (ctx2 := complete_hash_part ctx1 s (len64 s) (btc_of (c_rct ctx) (len64 s))) in *.
+      pose proof (enc_dec_ks_sim ctx2 (st_after P) s (ks_rel_same ctx1 ctx2 _ Fk Hks1)) as [Ho Hks3].
+      pose proof (enc_dec_ks_frame ctx2 s) as Hfr.
+      destruct (enc_dec_ks key ctx2 s) as [ctx3 dst]. cbn [fst snd] in *.
       destruct Hfr as (F1 & F2 & F3 & F4 & F5 & F6).
-      split; [| split; [| split]].
-      + rewrite <- (app_nil_l s). rewrite st_after_app. exact Hks2.
-      + cbn [ct_of]. eapply poly_core_same; [|exact Hpc].
-        unfold same_poly. rewrite F1, F2, F3, F4, F5, F6.
-        subst ctxH. unfold ChachaStream.paead_update_ctx. psimpl. rewrite A6. repeat split.
-      + rewrite F6. subst ctxH. unfold ChachaStream.paead_update_ctx. psimpl. exact A4.
-      + rewrite F5. subst ctxH. unfold ChachaStream.paead_update_ctx. psimpl. exact A5.
+      apply G; try congruence.
+      + exact Ho.
+      + rewrite F1, Hh, ct_of_app. reflexivity.
+  Qed.
+
+  Lemma job_updates_inv : forall dir segs ctx P,
+    inv dir ctx P -> N.of_nat (length (concat segs)) < 2 ^ 64 ->
+    inv dir (fst (job_updates key ctx iv aad segs dir)) (P ++ concat segs) /\
+    concat (snd (job_updates key ctx iv aad segs dir)) = out_of P (concat segs).
+  Proof.
+    intros dir segs. induction segs as [|s t IH]; intros ctx P Hinv Hlen.
+    - cbn. rewrite app_nil_r. auto.
+    - cbn [ChachaStream.job_updates ChachaStream.aead_sgl concat] in *. rewrite app_length in Hlen.
+      destruct (update_direct_inv dir ctx P s Hinv ltac:(lia)) as [Hi Ho].
+      destruct (update_direct key ctx s dir) as [ctx1 o]. cbn [fst snd] in *.
+      specialize (IH ctx1 (P ++ s) Hi ltac:(lia)). destruct IH as (I1 & I2).
+      destruct (job_updates key ctx1 iv aad t dir) as [ctx2 os]. cbn [fst snd concat app] in *.
+      rewrite app_assoc. split; [assumption|].
+      rewrite out_of_app, I2, Ho. reflexivity.
+  Qed.
+
+  Theorem run_job_iuc_gen : forall ctx0 dir first mids last,
+    length (c_scratch ctx0) = 16%nat ->
+    N.of_nat (length (first ++ concat mids ++ last)) < 2 ^ 64 ->
+    let '(ctx', os, t) := run_job_iuc ctx0 key iv aad dir first mids last in
+    concat os = ref_out 0 [] (first ++ concat mids ++ last) /\
+    t = Some (tag_of (ct_of dir (first ++ concat mids ++ last))) /\
+    sgl_ctx_clean ctx'.
+  Proof.
+    intros ctx0 dir first mids last Hs Hlen. rewrite !app_length in Hlen.
+    unfold ChachaStream.run_job_iuc. cbn [ChachaStream.aead_sgl].
+    destruct (job_init_inv dir ctx0 first Hs ltac:(lia)) as [Hi Ho1].
+    destruct (job_init key ctx0 iv aad first dir) as [ctx1 o1]. cbn [fst snd] in *.
+    destruct (job_updates_inv dir mids ctx1 first Hi ltac:(lia)) as [Hi2 Ho2].
+    destruct (job_updates key ctx1 iv aad mids dir) as [ctx2 o2]. cbn [fst snd] in *.
+    pose proof (job_complete_spec dir ctx2 (first ++ concat mids) last Hi2 ltac:(lia)) as Hc.
+    destruct (job_complete key ctx2 last dir) as [[ctx3 o3] t].
+    destruct Hc as (Ho3 & Ht & Hcl).
+    split; [|split; [|assumption]].
+    - rewrite !concat_app. cbn [concat]. rewrite !app_nil_r, Ho2, Ho3, Ho1.
+      change (ref_out 0 [] (first ++ concat mids ++ last)) with (out_of [] (first ++ concat mids ++ last)).
+      rewrite !out_of_app. cbn [app]. rewrite app_assoc. reflexivity.
+    - rewrite Ht, app_assoc. reflexivity.
+  Qed.
+
+  (* ---------- the invariant in the readable form of Struct/ChachaStream.v ---------- *)
+  Lemma inv_readable : forall dir ctx P, inv dir ctx P ->
+    chacha_stream_inv ksblock pblock pkey_gen key iv aad (ct_of dir P) ctx.
+  Proof.
+    intros dir ctx P ((Hiv & Hc & Hr & Hlt & Hk & Hb) & (Hpk & Hs & Hex) & Hhl & Hal).
+    pose proof (ref_pos_inv 64 lt64 blk blk_len nxt P 0%N 0%nat 0%N [] (pos_inv_init 64 lt64 blk nxt 0%N)) as Hp.
+    fold (st_after P) in Hp. destruct Hp as (k & Hk1 & Hk2 & _ & _).
+    rewrite iter_nxt_add in Hk1.
+    assert (HlP : len64 (ct_of dir P) = len64 P) by (unfold len64; rewrite ct_of_length; reflexivity).
+    unfold chacha_stream_inv.
+    split; [exact Hiv|]. split; [exact Hpk|]. split; [exact Hal|].
+    split; [rewrite HlP; exact Hhl|]. split; [exact Hs|]. split; [exact Hex|].
+    split. { rewrite HlP, Hr, Hc, Hk1. unfold len64. lia. }
+    split. { rewrite Hr. lia. }
+    intros Hpos. rewrite Hk; [rewrite Hc; reflexivity|].
+    intro E. rewrite E in Hr. simpl in Hr. lia.
+  Qed.
+
+  Theorem chacha_stream_inv_gen : forall dir ctx0 segs,
+    length (c_scratch ctx0) = 16%nat -> N.of_nat (length (concat segs)) < 2 ^ 64 ->
+    chacha_stream_inv ksblock pblock pkey_gen key iv aad (ct_of dir (concat segs))
+      (fst (update_all key (init_direct key ctx0 iv aad) segs dir)).
+  Proof.
+    intros dir ctx0 segs Hs Hlen.
+    destruct (update_all_inv dir segs _ [] (init_direct_inv dir ctx0 Hs) Hlen) as (I1 & _ & _).
+    apply inv_readable. exact I1.
   Qed.
 End Generic.
